@@ -3,6 +3,8 @@
 From Coq Require Export List NArith ZArith Bool String Ascii Lia.
 Export ListNotations.
 Open Scope N_scope.
+(* String (needed for hex literals) shadows the list functions of the same name *)
+Notation length := Datatypes.length.
 
 Definition byte := N.
 Definition bytes := list N.
